@@ -30,6 +30,32 @@ IDLE = -2147483647
 PENALTY = 2147483647
 
 
+class Ep(object):
+  """An endpoint object compared by value.  A fresh, equal object is built for every notification (as the
+  ZooKeeper ServerSet does: each notification is parsed separately), so identity is never meaningful."""
+  __slots__ = ('v',)
+
+  def __init__(self, v):
+    self.v = v
+
+  def __eq__(self, o):
+    return isinstance(o, Ep) and o.v == self.v
+
+  def __ne__(self, o):
+    return not self.__eq__(o)
+
+  def __hash__(self):
+    return hash(('Ep', self.v))
+
+  def __str__(self):
+    return str(self.v)
+  __repr__ = __str__
+
+
+def epval(e):
+  return e.v if isinstance(e, Ep) else e
+
+
 class _Rand(object):
   """Scripted stand-in for the `random` module inside scales.loadbalancer.heap / base."""
 
@@ -205,7 +231,7 @@ def setup():
 
     def CreateSink(self, properties):
       w = self.world
-      ep = properties[SinkProperties.Endpoint]
+      ep = epval(properties[SinkProperties.Endpoint])
       ch = Chan(w, len(w.chans), ep)
       w.chans.append(ch)
       w.events.append(['create', ch.nid, ep])
@@ -219,13 +245,14 @@ def setup():
     """A server-set member.  With epname the balancer is configured to use the named additional endpoint
     'aux' (= the endpoint the labels talk about); service_endpoint is then something else."""
 
-    def __init__(self, ep, epname=False, noaux=False):
+    def __init__(self, ep, epname=False, noaux=False, epobj=False):
       self.label_ep = ep
+      mk = Ep if epobj else (lambda v: v)      # epobj: a fresh, equal endpoint object per notification
       if epname:
-        self.service_endpoint = ep + 5000
-        self.additional_endpoints = {} if noaux else {'aux': ep}
+        self.service_endpoint = mk(ep + 5000)
+        self.additional_endpoints = {} if noaux else {'aux': mk(ep)}
       else:
-        self.service_endpoint = ep
+        self.service_endpoint = mk(ep)
         self.additional_endpoints = {}
 
   class ServerSet(ServerSetProvider):
@@ -244,7 +271,7 @@ def setup():
 
     def GetServers(self):
       self.release.wait()
-      lst = [Member(e, self.world.epname) for e in self.snapshot]
+      lst = [Member(e, self.world.epname, False, self.world.epobj) for e in self.snapshot]
       self.served = lst
       return lst
 
@@ -264,6 +291,7 @@ class World(object):
   def __init__(self, case):
     self.st0 = case.get('st0', 2)
     self.epname = bool(case.get('epname'))
+    self.epobj = bool(case.get('epobj'))
     self.events = []
     self.opens = []
     self.received = []
@@ -301,8 +329,10 @@ def _diag(bal):
     d['heap'] = [[n.channel.nid, n.load] for n in hp[1:]]
     d['index'] = [n.index for n in hp[1:]]
     d['size'] = bal._size
-    d['servers'] = sorted(bal._servers.keys())
-    d['eps'] = [n.endpoint for n in hp[1:]]
+    d['servers'] = sorted(epval(k) for k in bal._servers.keys())
+    d['eps'] = [epval(n.endpoint) for n in hp[1:]]
+    if hasattr(bal, '_idle_endpoints'):
+      d['idle'] = sorted(epval(k) for k in bal._idle_endpoints)
     dq = []
     n = bal._downq
     k = 0
@@ -364,7 +394,7 @@ def _run_impl(case):
     while True:
       kind, ep, noaux = q.get()
       try:
-        (ss.on_join if kind == 'join' else ss.on_leave)(_S['Member'](ep, epname, noaux))
+        (ss.on_join if kind == 'join' else ss.on_leave)(_S['Member'](ep, epname, noaux, w.epobj))
       except Exception as e:   # noqa
         prog['exc'] = type(e).__name__
       prog['done'] += 1
@@ -423,7 +453,7 @@ def _run_impl(case):
       state['nrid'] += 1
       out_reqs.append({'rid': rid, 'nid': nid, 'stack': stack, 'caller': caller,
                        'timer': stubq.actions[n0] if len(stubq.actions) > n0 else None})
-      record(['dispatch'], {'t': 'sent', 'nid': nid, 'ep': msg.properties.get(_S['MessageProperties'].Endpoint),
+      record(['dispatch'], {'t': 'sent', 'nid': nid, 'ep': epval(msg.properties.get(_S['MessageProperties'].Endpoint)),
                             'rid': rid, 'nrecv': len(w.received)}, opi, extra)
       return nid
     err = None
@@ -516,8 +546,12 @@ def _run_impl(case):
     bal.Open()
     dl = gevent.spawn(deliverer)
     settle()
+    ap_real = case.get('kind') == 'aperture_real'
     for opi, op in enumerate(case['ops']):
       k = op[0]
+      if ap_real:               # let completed Open()s of expanded nodes be noticed (pending endpoints cleared)
+        gevent.sleep(0)
+        gevent.sleep(0)
       if k in ('join', 'leave'):
         if not state['init']:
           pending_notifs.append((k, mapep(op[1])))
@@ -552,7 +586,7 @@ def _run_impl(case):
             ref_members.pop(e, None)
         record(['init', order], {'t': 'applied' if prog['done'] == prog['enq'] else 'blocked', 'exc': prog['exc']}, opi)
         prog['exc'] = None
-      elif not state['init'] and k in ('dispatch', 'complete', 'recomplete', 'fault', 'burst'):
+      elif not state['init'] and k in ('dispatch', 'complete', 'recomplete', 'fault', 'burst', 'isolate'):
         state['skipped'] += 1
       elif k == 'dispatch':
         do_dispatch(opi)
@@ -617,6 +651,17 @@ def _run_impl(case):
           out_reqs.remove(req)
           done_reqs.append(req)
           do_complete(req, 1, 'error', opi)
+      elif k == 'isolate':
+        # every other member leaves; the remaining one must then be dispatchable (active, or pulled in from idle)
+        eps = sorted(ref_members)
+        if not eps:
+          state['skipped'] += 1
+          continue
+        target = eps[op[1] % len(eps)]
+        for e in eps:
+          if e != target:
+            notify('leave', e, opi)
+        do_dispatch(opi, {'isolated': target})
       elif k == 'burst':
         eps = sorted(ref_members)
         chs = [live_chan(e) for e in eps]
@@ -854,39 +899,79 @@ def analyse(case, obs):
 
 
 def analyse_aperture(case, obs):
-  """C03 on a REAL aperture (idle servers outside it).  The members the balancer is using are the nodes of its
-  heap; which those are is not visible from outside (a contraction of a loaded member is silent), so the
-  candidate set is read from the balancer (heap array after the previous label).  Candidates for 'a better
-  member existed' are only nodes that were in the aperture BEFORE the dispatch; the chosen node may also be
-  one that the dispatch itself added (expansion on node-down)."""
+  """C03 and C05 on a REAL aperture (idle servers outside it).
+  C03: the members the balancer is using are the nodes of its heap; which those are is not visible from outside
+  (a contraction of a loaded member is silent), so the candidate set is read from the balancer (heap array after
+  the previous label).  Candidates for 'a better member existed' are only nodes that were in the aperture BEFORE
+  the dispatch; the chosen node may also be one that the dispatch itself added (expansion on node-down).
+  C05: the reference server set is folded over the notifications; a request never goes to the channel of a
+  departed member, never fails while the set is non-empty (also after every other member left: 'isolate'), and -
+  internal - active and idle endpoints partition the server set after every label."""
   V = []
   labels, steps = obs['labels'], obs['steps']
 
-  def flag(sig, msg, i):
-    V.append(({'C03'}, sig, 'step %d (op %d, label %s): %s' % (i, steps[i]['op'], labels[i], msg)))
+  def flag(sig, msg, i, pids=('C03',)):
+    V.append((set(pids), sig, 'step %d (op %d, label %s): %s' % (i, steps[i]['op'], labels[i], msg)))
 
   st0 = case.get('st0', 2)
   nodes = {}
   reqs = {}
   prev_heap = None
+  init = False
+  blocked = []
+  sset = set()
+  departed = set()      # channels of members that left: never used again (a re-join gets a fresh channel)
+
+  def apply_notif(kind, ep):
+    if kind == 'join':
+      sset.add(ep)
+    else:
+      sset.discard(ep)
+      for n_ in nodes.values():
+        if n_['ep'] == ep:
+          departed.add(n_['nid'])
+
   for i, (lb, st) in enumerate(zip(labels, steps)):
     res, ev = st['res'], st['events']
     if res.get('t') == 'exc' or res.get('exc'):
-      flag('impl-exception', 'the balancer raised %s' % (res.get('exc'),), i)
+      flag('impl-exception', 'the balancer raised %s' % (res.get('exc'),), i, ('C03', 'C05'))
+    k = lb[0]
+    # the notification is applied before the creations of this step are registered: a channel created while
+    # the same endpoint leaves and re-joins belongs to the new membership
+    if k in ('join', 'leave'):
+      if not init:
+        blocked.append((k, lb[1]))
+        if ev or res.get('t') != 'blocked':
+          flag('notification-applied-before-init', 'a %s notification took effect while the initial list was loading' % k, i, ('C05',))
+      else:
+        if res.get('t') != 'applied':
+          flag('notification-not-applied', 'notification still pending after the initial list was installed', i, ('C05',))
+        apply_notif(k, lb[1])
+    elif k == 'init':
+      init = True
+      for (k2, e2) in [('join', e) for e in lb[1]] + blocked:
+        apply_notif(k2, e2)
+      blocked = []
     created = set()
     for e in ev:
       if e[0] == 'create':
         nodes[e[1]] = dict(nid=e[1], ep=e[2], out=0, st=st0)
         created.add(e[1])
+        if init and e[2] not in sset:
+          flag('node-for-nonmember', 'channel %d created for %s which is not in the server set %s' % (e[1], e[2], sorted(sset)), i, ('C05',))
       elif e[0] == 'close' and e[1] in nodes:
         nodes[e[1]]['st'] = 4
-    k = lb[0]
     if k == 'setchan' and lb[1] in nodes:
       nodes[lb[1]]['st'] = lb[2]
     elif k == 'dispatch':
       if res.get('t') == 'sent':
         nid = res['nid']
         x = nodes.get(nid)
+        if x is not None and (nid in departed or x['ep'] not in sset):
+          flag('dispatch-to-nonmember', 'request went to channel %d of %s, a departed member (server set %s)'
+               % (nid, x['ep'], sorted(sset)), i, ('C03', 'C04', 'C05'))
+        if 'isolated' in st and x is not None and x['ep'] != st['isolated']:
+          flag('dispatch-to-nonmember', 'only %s is left in the server set but the request went to %s' % (st['isolated'], x['ep']), i, ('C05',))
         if prev_heap is not None and x is not None:
           pre_ids = [n for n, _l in prev_heap]
           if nid not in pre_ids and nid not in created:
@@ -909,9 +994,10 @@ def analyse_aperture(case, obs):
           x['out'] += 1
         reqs[res['rid']] = dict(nid=nid, done=False)
       elif res.get('t') == 'failed':
-        if prev_heap:
-          flag('failed-with-members', 'request failed (%s) although the aperture holds %s' % (res.get('err'), [n for n, _l in prev_heap]), i)
-        elif prev_heap is not None and res.get('err') != 'NoMembersError':
+        if sset:
+          flag('failed-with-members', 'request failed (%s) although the server set has members %s (active %s, idle %s)'
+               % (res.get('err'), sorted(sset), (st.get('diag') or {}).get('eps'), (st.get('diag') or {}).get('idle')), i, ('C03', 'C05'))
+        elif res.get('err') != 'NoMembersError':
           flag('no-members-wrong-error', 'empty balancer answered %s' % res.get('err'), i)
     elif k == 'complete':
       r = reqs.get(lb[1])
@@ -927,6 +1013,11 @@ def analyse_aperture(case, obs):
           flag('diag-heap-order', 'heap order broken: load at position %d is %d > %d at position %d'
                % (p_ // 2, prev_heap[p_ // 2 - 1][1], prev_heap[p_ - 1][1], p_), i)
           break
+    if init and 'idle' in d and 'eps' in d:
+      act, idle = d['eps'], d['idle']
+      if sorted(act + idle) != sorted(sset):
+        flag('aperture-partition-mismatch', 'active %s + idle %s is not the server set %s (a member that is neither active nor '
+             'idle can never be dispatched to; one that is both or departed gets traffic it must not)' % (sorted(act), idle, sorted(sset)), i, ('C05',))
   return V
 
 
@@ -1065,31 +1156,52 @@ SHARES = {
     # share of cases: on a real aperture (monitor only) / through the real ClientTimeoutSink / provider with endpoint_name
     'C03': dict(ap_real=0.25, tsink=0.4, epname=0.1),
     'C04': dict(ap_real=0.0, tsink=0.65, epname=0.15),
-    'C05': dict(ap_real=0.0, tsink=0.3, epname=0.4),
+    'C05': dict(ap_real=0.25, tsink=0.3, epname=0.4),
 }
 AP_PROFILE = dict(dispatch=8, c_any=2.5, c_min=0.5, c_max=1, rec=0.1, chan=1.5, chan_min=2.0, fault=0.3, join=0.4, leave=0.5,
                   burst=0.0)
 
 
-def gen_aperture_real(r):
-  """ApertureBalancerSink with idle servers outside the aperture: min_size 1-3 of 4-8 servers, no jitter;
-  load the aperture, then take the least-loaded member's channel down and dispatch (expansion on node-down)."""
+def gen_aperture_real(r, pid='C03'):
+  """ApertureBalancerSink with idle servers outside the aperture: min_size 1-3 of 4-8 servers, no jitter.
+  Either: load the aperture, then take the least-loaded member's channel down and dispatch (expansion on
+  node-down); or (adapt): load-driven resizing - a burst of requests expands the aperture past min_size, they
+  complete and a trickle of request/reply pairs lets the load average fall below min_load (contraction), more
+  than once.  The history ends with every member but one leaving and a dispatch (isolate)."""
   nsrv = r.choice([4, 5, 6, 7, 8])
   min_size = r.choice([1, 2, 3, 3, 3])
+  adapt = r.random() < (0.7 if pid == 'C05' else 0.3)
   universe = list(range(nsrv + r.choice([0, 1])))
   ops = [['init', r.sample(universe, nsrv), r.randrange(0, 1000)]]
-  for _ in range(r.choice([2 * min_size, 3 * min_size, 8])):
-    ops.append(['dispatch'])
-  for _ in range(r.choice([20, 40, 60, 100])):
+  if adapt:
+    min_size = r.choice([1, 1, 2, 3])
+    for _round in range(r.choice([1, 2, 3])):
+      k = r.choice([8, 12, 20, 30])
+      ops += [['dispatch']] * k
+      for _ in range(k):
+        ops.append(['complete', 'any', r.randrange(0, 64), r.randrange(0, 1000), r.choice(['reply', 'error', 'timeout'])])
+      for _ in range(r.choice([6, 12, 25])):
+        ops.append(['dispatch'])
+        ops.append(['complete', 'any', 0, r.randrange(0, 1000), 'reply'])
+      for _ in range(r.choice([0, 3, 8])):
+        ops.append(_one_op(r, AP_PROFILE, universe))
+  else:
+    for _ in range(r.choice([2 * min_size, 3 * min_size, 8])):
+      ops.append(['dispatch'])
+  for _ in range(r.choice([10, 20, 40, 60] if adapt else [20, 40, 60, 100])):
     ops.append(_one_op(r, AP_PROFILE, universe))
-  return {'kind': 'aperture_real', 'min_size': min_size, 'adapt': r.random() < 0.3,
+  ops.append(['isolate', r.randrange(0, 64)])
+  case = {'kind': 'aperture_real', 'min_size': min_size, 'adapt': adapt,
           'st0': r.choice([2, 2, 2, 2, 1]), 'tsink': r.random() < 0.3, 'ops': ops}
+  if r.random() < 0.7:
+    case['epobj'] = True
+  return case
 
 
 def gen_case(r, pid, size_hint=None, aperture_share=0.15):
   sh = SHARES[pid]
   if r.random() < sh['ap_real']:
-    return gen_aperture_real(r)
+    return gen_aperture_real(r, pid)
   nmem = size_hint or r.choice([1, 2, 3, 4, 5, 6, 6, 7, 7, 8, 9, 10, 12])
   universe = list(range(nmem + r.choice([0, 0, 1, 2, 3])))
   ops = []
@@ -1117,6 +1229,10 @@ def gen_case(r, pid, size_hint=None, aperture_share=0.15):
   ops.append(['burst'])
   case = {'kind': 'aperture' if r.random() < aperture_share else 'heap',
           'st0': r.choice([2, 2, 2, 1, 4]), 'ops': ops}
+  if pid == 'C05' and r.random() < 0.15:
+    ops.append(['isolate', r.randrange(0, 64)])
+  if r.random() < 0.7:
+    case['epobj'] = True           # endpoints are objects; every notification carries a fresh, equal one
   if r.random() < sh['tsink']:
     case['tsink'] = True
   if r.random() < sh['epname']:
@@ -1202,6 +1318,17 @@ def stats(cases, obs):
       c['cases_with_real_ClientTimeoutSink_in_front'] += 1
     if cs.get('epname'):
       c['cases_with_named_endpoint_provider'] += 1
+    if cs.get('epobj'):
+      c['cases_with_fresh_endpoint_objects_per_notification'] += 1
+    if cs.get('kind') == 'aperture_real':
+      sizes = [len((st_.get('diag') or {}).get('heap', [])) for st_ in o['steps']]
+      labs = [l_[0] for l_ in o['labels']]
+      grew = sum(1 for a_, b_, l_ in zip(sizes, sizes[1:], labs[1:]) if b_ > a_ and l_ in ('dispatch', 'complete'))
+      shrank = sum(1 for a_, b_, l_ in zip(sizes, sizes[1:], labs[1:]) if b_ < a_ and l_ in ('dispatch', 'complete'))
+      c['aperture_real_expansions_in_traffic'] += grew
+      c['aperture_real_contractions_by_load'] += shrank
+      if shrank:
+        c['cases_aperture_real_with_load_driven_contraction'] += 1
     maxsize = 0
     prev = {}
     for lb, st in zip(o['labels'], o['steps']):
